@@ -618,6 +618,26 @@ func runScenario(c *vcommon.Case, s *scenario) {
 		}
 		m2.Delete(d)
 	}
+	if !m2.EqualMap(tr2.Entries()) {
+		// Delete / copy-on-write defects of the trie are C02/C03's business: C38 only needs *a* second state.
+		// Rebuild it with Put only, so that the listing is judged on a state that really holds the model's entries.
+		c.Count("gen2_rebuilt_because_trie_delete_or_snapshot_misbehaved", 1)
+		tr2 = inmemory.NewEmptyTrie()
+		if s.Version == 1 {
+			tr2.SetVersion(trie.V1)
+		}
+		ks, vs := m2.Entries()
+		for i := range ks {
+			if err := tr2.Put(ks[i], vs[i]); err != nil {
+				c.Inconclusive("trie Put failed: " + err.Error())
+				return
+			}
+		}
+	}
+	if !m2.EqualMap(tr2.Entries()) || !m1.EqualMap(tr.Entries()) {
+		c.Inconclusive("the trie does not hold the entries that were put into it (state construction failed; see C02/C03)")
+		return
+	}
 	if _, _, err := e.commit(tr2); err != nil {
 		c.Inconclusive("cannot commit state: " + err.Error())
 		return
